@@ -865,8 +865,12 @@ func (x *Exec) rangeStmt(st *State, s *ast.RangeStmt, label string) *Flow {
 		case KInt:
 			n = coll
 		case KStr:
-			// range over string iterates runes; modelled bytewise only for ASCII-free use: unsupported to stay sound
-			x.unsupported(s, "range over string")
+			// range over a string iterates runes. Abstraction (sound over-approximation of UTF-8 decoding): the loop index is
+			// the byte offset; a byte below 0x80 is its own rune of width 1; at any other byte the rune is some code point
+			// >= 0x80 (possibly U+FFFD) of width 1..4 that does not run past the end of the string.
+			n = app(sortInt, "gs.len", coll)
+			et = types.Typ[types.Int32]
+			x.abstractNote(s, "range over string: runes at non-ASCII bytes are abstracted (any code point >= 0x80, width 1..4)")
 		}
 		st.ghost[gi] = tInt(0)
 		st.ghost[gi+".coll"] = coll
@@ -883,6 +887,17 @@ func (x *Exec) rangeStmt(st *State, s *ast.RangeStmt, label string) *Flow {
 				if coll.Sort.Kind == KSlice {
 					v = c.slAt(coll, i)
 				}
+				if coll.Sort.Kind == KStr {
+					b := app(sortInt, "gs.at", coll, i)
+					v = c.fresh("rune", sortInt)
+					w := c.fresh("runew", sortInt)
+					ascii := app(sortBool, "<", b, tInt(128))
+					x.assume(st, tAnd(
+						tImp(ascii, tAnd(tEq(v, b), tEq(w, tInt(1)))),
+						tImp(tNot(ascii), tAnd(app(sortBool, "<=", tInt(128), v), app(sortBool, "<=", v, tInt(0x10FFFF)), app(sortBool, "<=", tInt(1), w), app(sortBool, "<=", w, tInt(4)))),
+						app(sortBool, "<=", app(sortInt, "+", i, w), n)))
+					st.ghost[gi+".w"] = w
+				}
 				kt := types.Type(types.Typ[types.Int])
 				if coll.Sort.Kind == KInt {
 					kt = x.typeOf(s.X)
@@ -890,7 +905,11 @@ func (x *Exec) rangeStmt(st *State, s *ast.RangeStmt, label string) *Flow {
 				setKV(st, i, v, kt, et)
 			}}}, s.Body.List...)},
 			func(st *State) *State {
-				st.ghost[gi] = app(sortInt, "+", st.ghost[gi], tInt(1))
+				step := tInt(1)
+				if w, ok := st.ghost[gi+".w"]; ok && coll.Sort.Kind == KStr {
+					step = w
+				}
+				st.ghost[gi] = app(sortInt, "+", st.ghost[gi], step)
 				return st
 			})
 	case KMap:
